@@ -1,8 +1,78 @@
 import ApolloModel.Model.Proto
-open Apollo Apollo.Proto
+import ApolloModel.Model.Introspection
+import Driver.D26
+open Apollo Apollo.Proto Apollo.Introspection Apollo.Exec
 namespace Driver
 
-/-- streams of property C24 are named `c24.<name>` -/
-def c24 (_stream : String) (_fs : List String) : String := "unknown-stream"
+/-! streams of property C24 are named `c24.<name>`; cases written by harness/src/p24.rs -/
+namespace D24
+open D28
+
+def kindOfText (s : String) : TKind :=
+  if s == "SCALAR" then .scalar else if s == "OBJECT" then .object else if s == "INTERFACE" then .interface
+  else if s == "UNION" then .union else if s == "ENUM" then .enum else .inputObject
+
+def linkText (l : Link) : String := l.kind.text ++ ":" ++ (l.name.getD "-")
+
+/-- the standard query selects `ofType` nine times below the first `__Type` -/
+def typeref (tyField kindField : String) : String :=
+  let ts := toks tyField
+  match decTy (ts.length + 2) ts with
+  | some (t, []) =>
+    let k := kindOfText (String.ofList (decodeField kindField))
+    " ".intercalate ((chain (fun _ => k) 10 (resolverFor t)).map linkText)
+  | _ => "bad-case"
+
+def decElem (t : String) : Option Elem :=
+  match t.toList with
+  | '+' :: n => some { name := String.ofList n, deprecated := false }
+  | '-' :: n => some { name := String.ofList n, deprecated := true }
+  | _ => none
+
+def filter (elems incl : String) : String :=
+  let es := ((toks elems).filter (· ≠ "")).filterMap decElem
+  let arg : Json := if String.ofList (decodeField incl) == "true" then .bool true else if String.ofList (decodeField incl) == "null" then .null else .bool false
+  " ".intercalate ((visible (includeDeprecated arg) es).map (·.name))
+
+def decObj (t : String) : ObjInfo :=
+  match t.splitOn ":" with
+  | [n, impls] => { name := n, implements := (impls.splitOn ",").filter (· ≠ "") }
+  | _ => { name := t, implements := [] }
+
+def possible (name kind objs : String) : String :=
+  let os := ((toks objs).filter (· ≠ "")).map decObj
+  let n := String.ofList (decodeField name)
+  match toks kind with
+  | "U" :: members => " ".intercalate (D26.sortStr (possibleOfUnion (fun m => os.any (·.name == m)) members))
+  | _ => " ".intercalate (D26.sortStr (implementerObjects os n))
+
+/-- `{ a: __typename f b: f ...F z: __typename } fragment F on Q { c: f }` over an initial value whose
+    concrete fields all answer `SkipForPartialExecution` -/
+def skiproots (fname : String) : String :=
+  let f := String.ofList (decodeField fname)
+  let nd : Dirs := { skip := none, incl := none }
+  let qdef : ObjectDef := { implements := [], fields := [{ name := f, args := [], ty := .named "Int" }] }
+  let schema : Exec.Schema := Exec.Schema.mk { types := [] } [("Q", qdef)] [] [] "Q"
+  let sels : List Sel := [.field (some "a") "__typename" [] nd [], .field none f [] nd [], .field (some "b") f [] nd [],
+    .spread "F" nd, .field (some "z") "__typename" [] nd []]
+  let frag : Frag := Frag.mk "Q" [.field (some "c") f [] nd []]
+  let env : Env := Env.mk schema [("F", frag)] [] [((0, f), .skip)] 64
+  match execute 8 env sels with
+  | .outOfFuel => "out-of-fuel"
+  | .response r =>
+    let keys := match r.data with
+      | some m => ",".intercalate (m.map (·.1))
+      | none => "<null>"
+    "errors=" ++ toString r.errors.length ++ " keys=" ++ keys
+
+end D24
+
+def c24 (stream : String) (fs : List String) : String :=
+  match stream, fs with
+  | "c24.typeref", [t, k] => D24.typeref t k
+  | "c24.filter", [es, incl] => D24.filter es incl
+  | "c24.possible", [n, k, os] => D24.possible n k os
+  | "c24.skiproots", [f] => D24.skiproots f
+  | _, _ => "unknown-stream"
 
 end Driver
